@@ -137,8 +137,38 @@ pub fn record(rng: &mut SmallRng, n_events: usize, out: &mut dyn Write) {
             if left == 0 {
                 break;
             }
-            let ret = str_op!(op, h.as_str(), n.as_str());
+            let ret = catch(std::panic::AssertUnwindSafe(|| str_op!(op, h.as_str(), n.as_str())));
             writeln!(out, "{}", json!({"ev": op, "h": js(&h), "n": js(&n), "ret": ret})).unwrap();
+            left -= 1;
+        }
+        // arbitrary (non-UTF-8) bytes through the slice::bytes_* twins
+        let raw: [u8; 5] = [b'a', 0x80, 0xA0, 0xC3, 0xFF];
+        let k = rng.gen_range(2..=raw.len());
+        let bn: Vec<u8> = (0..rng.gen_range(1..=3)).map(|_| raw[rng.gen_range(0..k)]).collect();
+        let mut bh: Vec<u8> = Vec::new();
+        while bh.len() < rng.gen_range(0..=24) {
+            match rng.gen_range(0..4) {
+                0 => bh.extend_from_slice(&bn),
+                1 => bh.extend_from_slice(&bn[..rng.gen_range(0..=bn.len())]),
+                _ => bh.push(raw[rng.gen_range(0..k)]),
+            }
+        }
+        for op in ["find", "rfind", "contains", "rcontains", "find_skip", "find_keep", "rfind_skip", "rfind_keep"] {
+            if left == 0 {
+                break;
+            }
+            let (h, p) = (&bh[..], &bn[..]);
+            let ret = catch(std::panic::AssertUnwindSafe(|| match op {
+                "find" => opt(slice::bytes_find(h, p), |x| json!(x)),
+                "rfind" => opt(slice::bytes_rfind(h, p), |x| json!(x)),
+                "contains" => json!(slice::bytes_contain(h, p)),
+                "rcontains" => json!(slice::bytes_rcontain(h, p)),
+                "find_skip" => opt(slice::bytes_find_skip(h, p), jb),
+                "find_keep" => opt(slice::bytes_find_keep(h, p), jb),
+                "rfind_skip" => opt(slice::bytes_rfind_skip(h, p), jb),
+                _ => opt(slice::bytes_rfind_keep(h, p), jb),
+            }));
+            writeln!(out, "{}", json!({"ev": op, "h": jb(h), "n": jb(p), "ret": ret})).unwrap();
             left -= 1;
         }
     }
